@@ -16,6 +16,8 @@
 (*   t,r,c   type and dimensions, nf number of frequencies                 *)
 (*   fset    the frequency vector was given                                *)
 (*   stds    accepted standards in the order added                         *)
+(*   neq     equations so far per system (in the order of SysSeq)          *)
+(*   leak    leakage cells observed in isolation so far                    *)
 (*   held    a solved calibration is held (solve succeeded since the last  *)
 (*           add_calibration)                                              *)
 (*   heldN   number of standards the held calibration was solved from      *)
@@ -24,10 +26,15 @@
 EXTENDS CalEq
 
 NoState == [alive |-> FALSE, t |-> "T8", r |-> 1, c |-> 1, nf |-> 0,
-            fset |-> FALSE, stds |-> <<>>, held |-> FALSE, heldN |-> 0,
-            cals |-> 0]
+            fset |-> FALSE, stds |-> <<>>, neq |-> <<0>>, leak |-> {},
+            held |-> FALSE, heldN |-> 0, cals |-> 0]
 
-Res(st, ok, err, cat) == [st |-> st, ok |-> ok, err |-> err, cat |-> cat]
+(* systems as a sequence: the column systems 1..c, or the single system 0 *)
+SysSeq(t, c) == IF ColSys(t) THEN [k \in 1..c |-> k] ELSE <<0>>
+
+NoInfo == [neq |-> <<>>, leak |-> {}]
+Res(st, ok, err, cat) == [st |-> st, ok |-> ok, err |-> err, cat |-> cat,
+                          info |-> NoInfo]
 Okay(st)          == Res(st, TRUE, "OK", "NONE")
 Usage(st)         == Res(st, FALSE, "EINVAL", "USAGE")
 Math(st)          == Res(st, FALSE, "EDOM", "MATH")
@@ -36,7 +43,8 @@ Math(st)          == Res(st, FALSE, "EDOM", "MATH")
 DoAlloc(st, op) ==
     IF op.t \in Types /\ DimsOK(op.t, op.r, op.c) /\ op.nf >= 0
     THEN {Okay([NoState EXCEPT !.alive = TRUE, !.t = op.t, !.r = op.r,
-                               !.c = op.c, !.nf = op.nf])}
+                               !.c = op.c, !.nf = op.nf,
+                               !.neq = [k \in 1..Len(SysSeq(op.t, op.c)) |-> 0]])}
     ELSE {Usage(st)}
 
 (* vnacal_new_set_frequency_vector: non-negative and ascending *)
@@ -54,9 +62,21 @@ AShapeOK(st, op) ==
 DoAdd(st, op) ==
     LET v == Verdict(st.t, st.r, st.c, op.std)
     IN IF v = "refused" \/ (v = "ok" /\ ~AShapeOK(st, op)) THEN {Usage(st)}
-       ELSE IF v = "ok" THEN {Okay([st EXCEPT !.stds = Append(@, op.std)])}
-       ELSE \* the manual does not say: either refused, or accepted
-            {Usage(st), Okay([st EXCEPT !.stds = Append(@, op.std)])}
+       ELSE LET an  == Analysis(st.t, st.r, st.c, op.std)
+                ss  == SysSeq(st.t, st.c)
+                cnt == TLCEval([k \in 1..Len(ss) |-> EqCountIn(an.eqs, ss[k])])
+                acc == [Okay([st EXCEPT !.stds = Append(@, op.std),
+                                        !.neq = TLCEval([k \in 1..Len(ss) |-> @[k] + cnt[k]]),
+                                        !.leak = TLCEval(@ \cup an.leak)])
+                        EXCEPT !.info = [neq |-> cnt, leak |-> an.leak]]
+            IN IF v = "ok" THEN {acc}
+               ELSE \* the manual does not say: either refused, or accepted
+                    {Usage(st), acc}
+
+(* "fewer equations than there are unknown error terms" in some system *)
+UnderCountedSt(st) ==
+    LET ss == SysSeq(st.t, st.c)
+    IN \E k \in 1..Len(ss) : st.neq[k] < UnknownCount(st.t, st.r, st.c, ss[k])
 
 (* vnacal_new_solve.  op.ident is the verdict of the independent           *)
 (* identifiability oracle on the standards added so far:                   *)
@@ -69,7 +89,7 @@ Solved(st) == [st EXCEPT !.held = TRUE, !.heldN = Len(st.stds)]
 
 DoSolve(st, op) ==
     IF ~st.fset THEN {Usage(st)}
-    ELSE IF UnderCounted(st.t, st.r, st.c, st.stds) THEN {Math(st)}
+    ELSE IF UnderCountedSt(st) THEN {Math(st)}
     ELSE IF op.ident = "yes" THEN {Okay(Solved(st))}
     ELSE {Okay(Solved(st)), Math(st)}
 
@@ -80,11 +100,15 @@ DoAddCal(st, op) ==
     ELSE {Usage(st)}
 
 (* vnacal_apply / vnacal_apply_m on a calibration added from this life:    *)
-(* square, or 1x2 / 2x1 with a 2x2 measurement matrix                      *)
+(* square, or 1x2 / 2x1 with a 2x2 measurement matrix.  vnacal(3) lists    *)
+(* EDOM for a singular 'a' matrix or a singular system of equations for    *)
+(* the S-parameters; that cannot happen when the calibration was solved    *)
+(* from a determining set of standards and the device is well conditioned  *)
+(* (the trace specification requires success there).                       *)
 DoApply(st, op) ==
     LET p == Ports(st.r, st.c)
     IN IF st.cals >= 1 /\ ApplyAccepts(st.r, st.c) /\ op.mr = p /\ op.mc = p
-       THEN {Okay(st)} ELSE {Usage(st)}
+       THEN {Okay(st), Math(st)} ELSE {Usage(st)}
 
 Outcomes(st, op) ==
     CASE op.kind = "Alloc"  -> DoAlloc(st, op)
@@ -103,6 +127,6 @@ Outcomes(st, op) ==
 (* isolation (the harness takes that cell set from the trace spec's        *)
 (* expectation, logged back as "leak").                                    *)
 Sufficient(st, ident) ==
-    /\ ~UnderCounted(st.t, st.r, st.c, st.stds)
+    /\ ~UnderCountedSt(st)
     /\ ident = "yes"
 =============================================================================
